@@ -106,7 +106,7 @@ def build_real(jinja2, sb, desc, reg=None):
     """reg (optional list) collects the mapping objects of the DictLoader leaves in pre-order"""
     k = desc[0]
     if k == "F":
-        return jinja2.FileSystemLoader([sb + sp for sp in desc[1]])
+        return jinja2.FileSystemLoader([sb + sp for sp in desc[1]], **({"encoding": desc[2]} if len(desc) > 2 else {}))
     if k == "K":
         return jinja2.PackageLoader("c28pkg", "templates")
     if k == "D":
@@ -116,6 +116,12 @@ def build_real(jinja2, sb, desc, reg=None):
         if reg is not None:
             reg.append(d)
         return jinja2.DictLoader(d)
+    if k == "U":
+        # FunctionLoader over the same kind of table; answers alternate between the plain-string and the tuple form
+        d = {}
+        for n, c in desc[1]:
+            d.setdefault(n, f"id:{c}")
+        return jinja2.FunctionLoader(lambda name, d=d: None if name not in d else (d[name] if len(name) % 2 else (d[name], None, lambda: True)))
     if k == "C":
         return jinja2.ChoiceLoader([build_real(jinja2, sb, x, reg) for x in desc[1]])
     if k == "X":
@@ -135,7 +141,7 @@ def enc_loader(desc):
         return f"F {len(desc[1])} " + " ".join(enc(sp) for sp in desc[1])
     if k == "K":
         return "K " + enc("/pkgs/c28pkg/templates")
-    if k == "D":
+    if k in ("D", "U"):
         return f"D {len(desc[1])} " + " ".join(f"{enc(n)} {c}" for n, c in desc[1])
     if k == "C":
         return f"C {len(desc[1])} " + " ".join(enc_loader(x) for x in desc[1])
@@ -150,7 +156,7 @@ def search_dirs(desc):
         return list(desc[1])
     if k == "K":
         return ["/pkgs/c28pkg/templates"]
-    if k == "D":
+    if k in ("D", "U"):
         return []
     if k == "C":
         return [d for x in desc[1] for d in search_dirs(x)]
@@ -175,7 +181,7 @@ def py_route(desc, name):
 
 
 def leaf_spec(desc, name):
-    if desc[0] == "D":
+    if desc[0] in ("D", "U"):
         for n, c in desc[1]:
             if n == name:
                 return c
@@ -387,8 +393,13 @@ def run(ctx):
     # ---------------- K-rt 1: split_template_path, both conventions
     cases = [(cv, n) for cv in "pn" for n in names + rnd_names]
     out = ctx.driver("ldr", [f"S {cv} {enc(n)}" for cv, n in cases])
-    for (cv, n), m in zip(cases, out):
-        impl = real_split(L, n, cv)
+    from markupsafe import Markup
+
+    class StrSub(str):
+        pass
+    for ci, ((cv, n), m) in enumerate(zip(cases, out)):
+        # value kinds: the name as plain str, as a user str subclass, as Markup
+        impl = real_split(L, StrSub(n) if ci % 5 == 1 else Markup(n) if ci % 5 == 2 else n, cv)
         ctx.case(sample={"kind": "split", "conv": cv, "name": n, "result": impl} if len(ctx.samples) < 1 and ".." in n else None,
                  key=("split", cv, n) if (".." in n.split("/") or "\\" in n or "" in n.split("/")) else None)
         ctx.count("split_" + ("posix" if cv == "p" else "nt"))
@@ -493,14 +504,14 @@ FS_LOADERS = [
 
 
 def rand_loader(rng, depth):
-    k = rng.choice("FFKDDCX" if depth > 0 else "FKDD")
+    k = rng.choice("FFKDDUCX" if depth > 0 else "FKDDU")
     if k == "F":
         return ("F", rng.sample(["/t1", "/t2", "/t1/sub", "/t2/sub/", "/t1/./sub/.."], rng.randint(1, 2)))
     if k == "K":
         return ("K",)
-    if k == "D":
+    if k in ("D", "U"):
         pool = ["a", "b", "sub/a", "p/a", "a::b", "../secret", "x/../a", ""]
-        return ("D", [(n, 40 + rng.randint(0, 9)) for n in rng.sample(pool, rng.randint(0, 3))])
+        return (k, [(n, 40 + rng.randint(0, 9)) for n in rng.sample(pool, rng.randint(0, 3))])
     if k == "C":
         return ("C", [rand_loader(rng, depth - 1) for _ in range(rng.randint(0, 3))])
     return ("X", rng.choice(["/", "/", "::", "", "a", "b/"]),
@@ -561,6 +572,175 @@ def run_fs(ctx, jinja2, sb, names, rnd_names):
         check_one(ctx, jinja2, env, sb, desc, ld, n, ml, how)
     run_mut(ctx, jinja2, sb)
     run_listed(ctx, jinja2, sb)
+    run_more(ctx, jinja2, sb, names)
+
+
+# ------------------------------------------------------------------------------------------- the other loaders and options
+ZIP_FILES = {"c28zip/__init__.py": "", "c28zip/templates/a": "id:31", "c28zip/templates/sub/a": "id:32", "c28zip/templates/é": "id:33",
+             "c28zip/secret": "id:99", "secret": "id:98", "c28zip/templates2/a": "id:97"}
+
+
+def run_more(ctx, jinja2, sb, names):
+    """PackageLoader on a zip, ModuleLoader (no source access), list_templates of every loader, followlinks, encoding"""
+    import zipfile
+    env = jinja2.Environment()
+    zpath = sb + "/zips/c28zip.zip"
+    os.makedirs(sb + "/zips")
+    with zipfile.ZipFile(zpath, "w") as z:
+        for n, c in ZIP_FILES.items():
+            z.writestr(n, c)
+    sys.path.insert(0, zpath)
+    try:
+        zl = jinja2.PackageLoader("c28zip", "templates")
+        table = {n[len("c28zip/templates/"):]: c[3:] for n, c in ZIP_FILES.items() if n.startswith("c28zip/templates/")}
+        short = [n for n in names if n.count("/") <= 2]
+        for n in short:
+            _AUDIT["opens"], _AUDIT["on"] = [], True
+            try:
+                src, fn, up = zl.get_source(env, n)
+                impl = src[3:] if src.startswith("id:") else "?" + src[:8]
+            except jinja2.TemplateNotFound:
+                impl = "N"
+            except Exception as e:  # noqa
+                impl = "X:" + type(e).__name__
+            finally:
+                _AUDIT["on"] = False
+            segs = n.split("/")
+            want = "N" if ".." in segs else table.get("/".join(x for x in segs if x not in ("", ".")), "N")
+            outside = [p for p in _AUDIT["opens"] if os.path.realpath(p) != os.path.realpath(zpath) and not os.path.realpath(p).startswith(STDLIB)]
+            case = {"kind": "zip", "name": n}
+            ctx.case(key=("zip", n) if (".." in segs or impl != "N") else None)
+            ctx.count("zip_package_loader")
+            if impl != want or outside:
+                ctx.reject(dict(case, impl=impl), f"PackageLoader (zip) get_source({n!r}): got {impl}, the templates directory of the archive has {want}; opened {outside}")
+            else:
+                ctx.validated()
+        lst = zl.list_templates()
+        if sorted(lst) != sorted(table):
+            ctx.reject({"kind": "zip-list"}, f"PackageLoader (zip) list_templates() = {lst}, the templates directory holds {sorted(table)}")
+    finally:
+        sys.path.remove(zpath)
+        for k in [k for k in sys.modules if k == "c28zip" or k.startswith("c28zip.")]:
+            del sys.modules[k]
+        sys.path_importer_cache.pop(zpath, None)
+
+    # list_templates of the file-system and package loaders = exactly the files under the search directories, each resolving
+    def expected_listing(dirs):
+        out = {}
+        for d in dirs:
+            base = "/" + "/".join(c for c in posixpath.normpath(d).split("/") if c)
+            for mp, cid in FILES.items():
+                if mp.startswith(base + "/"):
+                    out.setdefault(mp[len(base) + 1:], cid)
+        return out
+    for desc in FS_LOADERS + [("F", ["/t1"], "latin-1")]:
+        ld = build_real(jinja2, sb, desc)
+        want = expected_listing(search_dirs(desc))
+        got = ld.list_templates()
+        ctx.case(key=("listing", repr(desc)))
+        ctx.count("list_templates")
+        bad = None
+        if sorted(got) != sorted(want):
+            bad = f"list_templates() = {sorted(got)}, the search directories hold {sorted(want)}"
+        else:
+            for n in got:
+                impl, opens = real_get(jinja2, env, ld, n, sb, "get_source")
+                if not impl.endswith(" " + str(want[n])) or judge_fs(sb, desc[:2], n, impl, opens):
+                    bad = f"listed name {n!r} resolves to {impl}"
+        if bad:
+            ctx.reject({"kind": "listing", "loader": desc}, f"{desc}: {bad}")
+        else:
+            ctx.validated()
+    # the encoding option does not change which file is read
+    enc_ld = build_real(jinja2, sb, ("F", ["/t1", "/t2"], "latin-1"))
+    for n in names[::37]:
+        impl, opens = real_get(jinja2, env, enc_ld, n, sb, "get_source")
+        of = judge_fs(sb, ("F", ["/t1", "/t2"]), n, impl, opens)
+        ctx.case()
+        ctx.count("encoding_option")
+        if of:
+            ctx.reject({"kind": "fs", "loader": ["F", ["/t1", "/t2"], "latin-1"], "name": n, "how": "get_source"}, of)
+        else:
+            ctx.validated()
+    # value kinds of the constructor arguments: os.PathLike search paths, equivalent spellings of package_path
+    import pathlib
+    variants = [("FileSystemLoader(Path)", jinja2.FileSystemLoader(pathlib.Path(sb + "/t1")), ("F", ["/t1"])),
+                ("FileSystemLoader([Path, str])", jinja2.FileSystemLoader([pathlib.Path(sb + "/t1"), sb + "/t2"]), ("F", ["/t1", "/t2"]))]
+    for pp in ("./templates", "templates/", "templates/.", "templates//"):
+        try:
+            variants.append((f"PackageLoader(package_path={pp!r})", jinja2.PackageLoader("c28pkg", pp), ("K",)))
+        except Exception as e:  # noqa
+            ctx.reject({"kind": "ctor", "package_path": pp}, f"PackageLoader('c28pkg', {pp!r}) raised {type(e).__name__}: {e}")
+    for label, ld, desc in variants:
+        for n in names[::53]:
+            impl, opens = real_get(jinja2, env, ld, n, sb, "get_source")
+            of = judge_fs(sb, desc, n, impl, opens)
+            ctx.case()
+            ctx.count("constructor_value_kinds")
+            if of:
+                ctx.reject({"kind": "ctor", "loader": label, "name": n}, f"{label}: {of}")
+            else:
+                ctx.validated()
+        want = expected_listing(search_dirs(desc))
+        if sorted(ld.list_templates()) != sorted(want):
+            ctx.reject({"kind": "ctor", "loader": label}, f"{label}: list_templates() = {sorted(ld.list_templates())}, expected {sorted(want)}")
+    # followlinks only affects list_templates; a listed name must resolve (symbolic links are outside M and outside the
+    # containment oracle: reading through a link placed inside a search directory is the documented behaviour)
+    os.makedirs(sb + "/t3/real")
+    open(sb + "/t3/real/x", "w").write("id:71")
+    os.symlink("../outside", sb + "/t3/ldir")
+    os.symlink("../secret", sb + "/t3/lfile")
+    for follow in (False, True):
+        ld = jinja2.FileSystemLoader(sb + "/t3", followlinks=follow)
+        got = sorted(ld.list_templates())
+        want = sorted(["real/x", "lfile"] + (["ldir/secret", "ldir/a"] if follow else []))
+        ctx.case(key=("followlinks", follow))
+        ctx.count("followlinks")
+        unresolved = []
+        for n in got:
+            try:
+                ld.get_source(env, n)
+            except jinja2.TemplateNotFound:
+                unresolved.append(n)
+        if got != want or unresolved:
+            ctx.reject({"kind": "followlinks", "followlinks": follow}, f"followlinks={follow}: list_templates() = {got} (expected {want}); unresolved {unresolved}")
+        else:
+            ctx.validated()
+
+    # ModuleLoader: precompiled templates, no source access; TemplateNotFound exactly for names that were not compiled
+    cdir = sb + "/compiled"
+    srcs = {"a": "id:81", "sub/a": "id:82", "é": "id:83", "a\\b": "id:84"}
+    jinja2.Environment(loader=jinja2.DictLoader(srcs)).compile_templates(cdir, zip=None, log_function=lambda m: None)
+    ml = jinja2.ModuleLoader(cdir)
+    try:
+        ml.get_source(env, "a")
+        ctx.reject({"kind": "module"}, "ModuleLoader.get_source returned although has_source_access is False")
+    except RuntimeError:
+        pass
+    except Exception as e:  # noqa
+        ctx.reject({"kind": "module"}, f"ModuleLoader.get_source raised {type(e).__name__} instead of RuntimeError")
+    if ml.has_source_access is not False:
+        ctx.reject({"kind": "module"}, "ModuleLoader.has_source_access is not False")
+    for n in [x for x in names if x.count("/") <= 2][::3]:
+        _AUDIT["opens"], _AUDIT["on"] = [], True
+        try:
+            impl = ml.load(env, n).render()[3:]
+        except jinja2.TemplateNotFound:
+            impl = "N"
+        except Exception as e:  # noqa
+            impl = "X:" + type(e).__name__
+        finally:
+            _AUDIT["on"] = False
+        segs = n.split("/")
+        normal = None if ".." in segs else "/".join(x for x in segs if x not in ("", "."))
+        want = srcs[n][3:] if n in srcs else (srcs[normal][3:] if normal in srcs else "N")
+        outside = [p for p in _AUDIT["opens"] if not os.path.realpath(p).startswith(os.path.realpath(cdir) + "/") and not os.path.realpath(p).startswith(STDLIB)]
+        ctx.case(key=("module", n) if impl != "N" or ".." in segs else None)
+        ctx.count("module_loader")
+        if impl != want or outside:
+            ctx.reject({"kind": "module", "name": n, "impl": impl}, f"ModuleLoader.load({n!r}): got {impl}, compiled templates give {want}; opened {outside}")
+        else:
+            ctx.validated()
 
 
 # ------------------------------------------------------------------------------------------- "has it" as list_templates sees it
